@@ -164,31 +164,152 @@ Section CrashProofs.
       rewrite no_commit_app, N1, N2. reflexivity.
   Qed.
 
+
+  (** * what was fsynced stays fsynced: the synced length of the single log file never shrinks
+      and never exceeds the file *)
+  Definition syn_ok (w : wstate) (lo : Z) : Prop :=
+    exists f, d_files (w_disk w) = [(0, f)] /\ w_seq w = 0 /\ lo <= f_synced f <= lenZ (f_bytes f).
+
+  Lemma syn_ok_weaken w lo lo' : lo' <= lo -> syn_ok w lo -> syn_ok w lo'.
+  Proof. intros H (f & A & B & C). exists f. repeat split; try assumption; lia. Qed.
+
+  Lemma bufw_synced f c : f_synced (bufw_write f c) = f_synced f.
+  Proof. reflexivity. Qed.
+  Lemma bufw_len f c : lenZ (f_bytes f) <= lenZ (f_bytes (bufw_write f c)).
+  Proof. rewrite bufw_bytes, lenZ_app. pose proof (lenZ_nonneg c). lia. Qed.
+
+  Lemma wlog_syn cfg w r lo : syn_ok w lo -> w_seq (wlog crc enc cfg w r) = 0 -> syn_ok (wlog crc enc cfg w r) lo.
+  Proof.
+    intros (f & Hf & Hs & Hb) Hseq. unfold wlog in *.
+    rewrite (active_single w [] f Hf Hs) in *.
+    set (f3 := bufw_write (bufw_write (bufw_write f (le32 (lenZ (enc r)))) (enc r)) (le32 (crc (enc r)))) in *.
+    assert (S3 : f_synced f3 = f_synced f) by reflexivity.
+    assert (L3 : lenZ (f_bytes f) <= lenZ (f_bytes f3)).
+    { unfold f3. pose proof (bufw_len f (le32 (lenZ (enc r)))).
+      pose proof (bufw_len (bufw_write f (le32 (lenZ (enc r)))) (enc r)).
+      pose proof (bufw_len (bufw_write (bufw_write f (le32 (lenZ (enc r)))) (enc r)) (le32 (crc (enc r)))). lia. }
+    set (pr := match c_mode cfg with
+               | MSync => if is_commit r then (file_sync f3, 0) else (f3, w_since w + 1)
+               | MBatch maxr elapsed => if (maxr <=? w_since w + 1) || elapsed then (file_sync f3, 0) else (f3, w_since w + 1)
+               | MAdaptive => (file_flush f3, w_since w + 1)
+               | MNoSync => (file_flush f3, w_since w + 1)
+               end) in *.
+    assert (B4 : lo <= f_synced (fst pr) <= lenZ (f_bytes (fst pr))).
+    { unfold pr. destruct (c_mode cfg); [destruct (is_commit r)|destruct (_ || _)| |]; cbn [fst file_sync file_flush f_synced f_bytes]; lia. }
+    destruct pr as [f4 since'] eqn:Epr. cbn [fst] in B4.
+    destruct (set_active_single w f f4 Hf Hs) as (A1 & A2 & A3).
+    destruct (c_max cfg <=? lenZ (f_bytes f3)).
+    - rewrite wrotate_seq in Hseq. cbn [w_seq] in Hseq. rewrite A2 in Hseq. discriminate.
+    - exists f4. cbn [w_disk w_seq]. auto.
+  Qed.
+
+  Lemma wlog_all_syn cfg rs : forall w lo, syn_ok w lo -> w_seq (wlog_all crc enc cfg w rs) = 0 -> syn_ok (wlog_all crc enc cfg w rs) lo.
+  Proof.
+    induction rs as [|r rs IH]; intros w lo H Hseq; [exact H|].
+    cbn [wlog_all fold_left] in *. fold (wlog_all crc enc cfg (wlog crc enc cfg w r) rs) in *.
+    assert (H0 : w_seq (wlog crc enc cfg w r) = 0).
+    { pose proof (wlog_all_seq_mono crc enc cfg rs (wlog crc enc cfg w r)). pose proof (wlog_seq_mono crc enc cfg w r).
+      destruct H as (f & _ & Hs & _). lia. }
+    apply IH; [apply wlog_syn; assumption|exact Hseq].
+  Qed.
+
+  (** the single log file is fsynced to its end *)
+  Definition syn_full (w : wstate) : Prop :=
+    exists f, d_files (w_disk w) = [(0, f)] /\ w_seq w = 0 /\ f_synced f = lenZ (f_bytes f).
+  Lemma syn_full_ok w : syn_full w -> exists f, d_files (w_disk w) = [(0, f)] /\ syn_ok w (lenZ (f_bytes f)).
+  Proof. intros (f & A & B & C). exists f. split; [exact A|]. exists f. repeat split; try assumption; lia. Qed.
+
+  Lemma wsync_syn w lo : syn_ok w lo -> syn_ok (wsync w) lo /\ syn_full (wsync w).
+  Proof.
+    intros (f & Hf & Hs & Hb). unfold wsync.
+    destruct (set_active_single w f (file_sync f) Hf Hs) as (A1 & A2 & A3).
+    rewrite (active_single w [] f Hf Hs).
+    split; exists (file_sync f); cbn [w_disk w_seq file_sync f_synced f_bytes]; repeat split; try assumption; lia.
+  Qed.
+
+  Lemma wcheckpoint_syn cfg w tx ep lo :
+    syn_ok w lo -> w_seq (wcheckpoint crc enc cfg w tx ep) = 0 -> syn_ok (wcheckpoint crc enc cfg w tx ep) lo.
+  Proof.
+    intros H Hseq. unfold wcheckpoint, wtruncate, cp_rename, cp_tmp, cp_log in *.
+    cbn [w_cp w_seq w_disk w_since d_files d_meta] in *.
+    assert (H0 : w_seq (wlog crc enc cfg w (Checkpoint tx)) = 0) by exact Hseq.
+    destruct (wsync_syn _ lo (wlog_syn cfg w (Checkpoint tx) lo H H0)) as [(f & Hf & Hq & Hb) _].
+    exists f. cbn [w_disk w_seq d_files set_files]. rewrite Hf. cbn [filter fst].
+    change (w_seq (wsync (wlog crc enc cfg w (Checkpoint tx)))) with (w_seq (wlog crc enc cfg w (Checkpoint tx))).
+    rewrite H0. cbn. auto.
+  Qed.
+
+  Lemma db_step_syn cfg st o lo :
+    syn_ok (db_w st) lo -> w_seq (db_w (fst (db_step crc enc cfg st o))) = 0 -> syn_ok (db_w (fst (db_step crc enc cfg st o))) lo.
+  Proof.
+    intros H Hseq. destruct (is_wal_op o) eqn:W.
+    - destruct o; try discriminate W; cbn [db_step] in *.
+      + destruct (last_or_begin (db_tm st)) as [tx t1]. cbn [fst db_w] in *. rewrite wsync_seq in Hseq.
+        apply wsync_syn, wcheckpoint_syn; assumption.
+      + cbn [fst db_w] in Hseq. rewrite wrotate_seq in Hseq. destruct H as (f & _ & Hs & _). lia.
+      + cbn [fst db_w]. apply wsync_syn, H.
+    - rewrite (db_step_generic crc enc cfg st o W) in *.
+      destruct (op_effect (db_store st) (db_tm st) o) as [[[s1 t1] rs] res]. cbn [fst db_w] in *.
+      apply wlog_all_syn; assumption.
+  Qed.
+
+  Lemma run_ops_syn cfg os : forall st lo,
+    syn_ok (db_w st) lo -> w_seq (db_w (fst (run_ops crc enc cfg st os))) = 0 -> syn_ok (db_w (fst (run_ops crc enc cfg st os))) lo.
+  Proof.
+    induction os as [|o r IH]; intros st lo H Hseq; [exact H|].
+    cbn [run_ops] in *.
+    pose proof (db_step_syn cfg st o lo H) as SW.
+    pose proof (run_ops_seq_mono cfg r (fst (db_step crc enc cfg st o))) as MM.
+    pose proof (db_step_seq_mono cfg st o) as M0.
+    destruct (db_step crc enc cfg st o) as [st1 x]. cbn [fst] in *.
+    specialize (IH st1 lo). destruct (run_ops crc enc cfg st1 r) as [st2 xs]. cbn [fst] in *.
+    apply IH; [apply SW|exact Hseq]. destruct H as (f & _ & Hs & _). lia.
+  Qed.
+
+  Lemma close_reopen_full cfg st1 lo st2 :
+    syn_ok (db_w st1) lo -> w_seq (db_w (db_close crc enc cfg st1)) = 0 ->
+    db_open crc dec (end_disk crc enc cfg st1 EClose) = ROk st2 -> syn_full (db_w st2).
+  Proof.
+    intros H Hseq DO. unfold end_disk, db_close in *.
+    destruct (last_or_begin (db_tm st1)) as [tx t1]. cbn [db_w db_store] in *. rewrite wsync_seq in Hseq.
+    set (w1 := wlog crc enc cfg (db_w st1) (TxCommit tx)) in *.
+    assert (H1 : w_seq w1 = 0).
+    { pose proof (wlog_cp_seq_mono crc enc cfg w1 tx (s_epoch (db_store st1))).
+      pose proof (wlog_seq_mono crc enc cfg (db_w st1) (TxCommit tx)). fold w1 in H1. destruct H as (f & _ & Hs & _). lia. }
+    pose proof (wlog_syn cfg (db_w st1) (TxCommit tx) lo H H1) as S1. fold w1 in S1.
+    pose proof (wcheckpoint_syn cfg w1 tx (s_epoch (db_store st1)) lo S1 Hseq) as S2.
+    destruct (wsync_syn _ lo S2) as [_ (f & Hf & Hs & Hb)].
+    set (ws := wsync (wcheckpoint crc enc cfg w1 tx (s_epoch (db_store st1)))) in *.
+    unfold db_open in DO. destruct (recover crc dec (wdrop ws)); [|discriminate]. injection DO as <-. cbn [db_w].
+    destruct (set_active_single ws f (file_flush (active ws)) Hf Hs) as (A1 & A2 & A3).
+    rewrite (active_single ws [] f Hf Hs) in A1.
+    unfold wdrop. rewrite (active_single ws [] f Hf Hs). unfold wopen. rewrite !A1. cbn [max_seq fold_right fst]. rewrite Z.max_id, get_single.
+    exists (file_flush f). cbn [w_disk w_seq set_files d_files file_flush f_synced f_bytes]. auto.
+  Qed.
+
   (** * the crash image: file 0 cut to its first [n] bytes *)
   Lemma cut_disk_single d f n :
     d_files d = [(0, f)] ->
     d_files (cut_disk [(0, Z.of_nat n)] d) = [(0, cut_file n f)] /\ d_meta (cut_disk [(0, Z.of_nat n)] d) = d_meta d.
   Proof. intros H. unfold cut_disk, set_files. cbn [d_files d_meta]. rewrite H. cbn. rewrite Nat2Z.id. auto. Qed.
 
-  Lemma crash_gen cfg st log os n :
-    Inv crc enc dec st log -> pend log = [] ->
-    w_seq (db_w (fst (run_ops crc enc cfg st os))) = 0 ->
-    Forall ok (ops_logs crc enc cfg st os) ->
+  (** opening a directory whose single file holds the first [n] bytes of the frames of
+      [log ++ rs], where [log] is fully committed and [rs] has no commit marker *)
+  Lemma open_cut d' f' n log rs s0 :
+    d_files d' = [(0, f')] -> f_bytes f' = firstn n (frames (log ++ rs)) -> meta0 (d_meta d') ->
+    Forall ok (log ++ rs) -> no_commit rs = true -> pend log = [] ->
+    s0 = apply_all empty_store (datas (snd (sm_run ([], []) log)) ++ pend log) ->
     (length (frames log) <= n)%nat ->
-    exists st2, db_open crc dec (cut_disk [(0, Z.of_nat n)] (wdrop (db_w (fst (run_ops crc enc cfg st os))))) = ROk st2
-                /\ db_store st2 = db_store st.
+    exists st2, db_open crc dec d' = ROk st2 /\ db_store st2 = s0.
   Proof.
-    intros (S & M & ES & OK) P Hseq Hok Hn.
-    destruct (run_ops_winv cfg os st log (conj S (conj M OK)) Hseq Hok) as [(S1 & M1 & OK1) NC].
-    set (st1 := fst (run_ops crc enc cfg st os)) in *. set (rs := ops_logs crc enc cfg st os) in *.
-    destruct (wdrop_single crc enc _ _ S1) as (f & Hf & Hb & Hm).
-    destruct (cut_disk_single (wdrop (db_w st1)) f n Hf) as [Cf Cm].
-    set (d' := cut_disk [(0, Z.of_nat n)] (wdrop (db_w st1))) in *.
-    assert (Md : meta0 (d_meta d')) by (rewrite Cm, Hm; exact M1).
+    intros Cf Hb' Md OK1 NC P ES Hn.
     assert (Hms : min_seq (d_meta d') = 0) by (destruct Md as [->|(c & -> & Hc)]; [reflexivity|exact Hc]).
     assert (Hnb : d_meta d' <> MetaBad) by (destruct Md as [->|(c & -> & _)]; discriminate).
     unfold db_open. rewrite (recover_spec crc dec d' Hnb), Hms, Cf. cbn [disk_records Z.ltb Z.compare].
-    rewrite (file_records_cut crc enc dec crc_range f (log ++ rs) n OK1 Hb), app_nil_r.
+    assert (FR : file_records crc dec f' = firstn (frames_within n (map enc (log ++ rs))) (log ++ rs)).
+    { pose proof (file_records_cut crc enc dec crc_range (mkFile (frames (log ++ rs)) 0 0) (log ++ rs) n OK1 eq_refl) as H.
+      unfold file_records, cut_file in *. cbn [f_bytes] in H. rewrite Hb'. exact H. }
+    rewrite FR, app_nil_r.
     eexists. split; [reflexivity|]. cbn [db_store].
     set (k := frames_within n (map enc (log ++ rs))).
     assert (Hk : (length log <= k)%nat) by (apply frames_within_log, Hn).
@@ -198,14 +319,68 @@ Section CrashProofs.
     rewrite ES, app_nil_r. reflexivity.
   Qed.
 
-  (** the state a clean history leaves satisfies the invariant again *)
+  Lemma frames_nil log : length (frames log) = 0%nat -> log = [].
+  Proof.
+    destruct log as [|r log]; [reflexivity|]. unfold ProofsRecover.frames. cbn [map concat].
+    rewrite app_length. unfold frame. rewrite !app_length, !le32_length. lia.
+  Qed.
+
+  (** T crash_recovers_last_close, from any state that satisfies the invariant: EVERY crash image
+      of the directory (each file keeps a prefix that contains its fsynced bytes, a never-fsynced
+      file may vanish) opens to the store of the last close *)
+  Lemma crash_gen cfg st log os d' :
+    Inv crc enc dec st log -> pend log = [] -> syn_full (db_w st) ->
+    w_seq (db_w (fst (run_ops crc enc cfg st os))) = 0 ->
+    Forall ok (ops_logs crc enc cfg st os) ->
+    crash (wdrop (db_w (fst (run_ops crc enc cfg st os)))) d' ->
+    exists st2, db_open crc dec d' = ROk st2 /\ db_store st2 = db_store st.
+  Proof.
+    intros (S & M & ES & OK) P SF Hseq Hok [CF CM].
+    destruct (run_ops_winv cfg os st log (conj S (conj M OK)) Hseq Hok) as [(S1 & M1 & OK1) NC].
+    set (st1 := fst (run_ops crc enc cfg st os)) in *. set (rs := ops_logs crc enc cfg st os) in *.
+    (* the synced length of the file at crash time covers the frames of [log] *)
+    destruct (syn_full_ok _ SF) as (f0 & Hf0 & SO).
+    assert (L0 : lenZ (f_bytes f0) = lenZ (frames log)).
+    { destruct S as (f0' & Hf0' & Hb0' & _). rewrite Hf0 in Hf0'. injection Hf0' as <-. rewrite Hb0'. reflexivity. }
+    pose proof (run_ops_syn cfg os st _ SO Hseq) as (f1 & Hf1 & Hs1 & Hb1). fold st1 in Hf1, Hs1.
+    destruct (set_active_single (db_w st1) f1 (file_flush (active (db_w st1))) Hf1 Hs1) as (A1 & A2 & A3).
+    rewrite (active_single (db_w st1) [] f1 Hf1 Hs1) in A1.
+    destruct S1 as (f1' & Hf1' & Hbytes & _). rewrite Hf1 in Hf1'. injection Hf1' as <-.
+    assert (Hd : d_files (wdrop (db_w st1)) = [(0, file_flush f1)]).
+    { unfold wdrop. rewrite (active_single (db_w st1) [] f1 Hf1 Hs1). exact A1. }
+    assert (Hm : d_meta (wdrop (db_w st1)) = d_meta (w_disk (db_w st1))).
+    { unfold wdrop. rewrite (active_single (db_w st1) [] f1 Hf1 Hs1).
+      destruct (set_active_single (db_w st1) f1 (file_flush f1) Hf1 Hs1) as (_ & _ & X). exact X. }
+    assert (Md : meta0 (d_meta d')) by (rewrite CM, Hm; exact M1).
+    rewrite Hd in CF. remember (d_files d') as fs' eqn:Efs.
+    inversion CF as [| s f f' l l' Hcut Hrest | s f l l' Hz Hrest]; subst.
+    - (* the file survives, cut to some length that keeps the fsynced bytes *)
+      inversion Hrest; subst. destruct Hcut as (n & Hn & Hbn). cbn [file_flush f_synced f_bytes] in Hn, Hbn.
+      apply (open_cut d' f' n log rs (db_store st)); try assumption.
+      + symmetry. assumption.
+      + rewrite Hbn, Hbytes. reflexivity.
+      + unfold lenZ in *. lia.
+    - (* the file vanished: nothing of it was ever fsynced, so nothing was ever closed *)
+      inversion Hrest; subst. cbn [file_flush f_synced] in Hz.
+      assert (LN : log = []) by (apply frames_nil; unfold lenZ in *; lia).
+      subst log.
+      assert (Hms : min_seq (d_meta d') = 0) by (destruct Md as [->|(c & -> & Hc)]; [reflexivity|exact Hc]).
+      assert (Hnb : d_meta d' <> MetaBad) by (destruct Md as [->|(c & -> & _)]; discriminate).
+      unfold db_open. rewrite (recover_spec crc dec d' Hnb), Hms.
+      match goal with HN : [] = d_files d' |- _ => rewrite <- HN end. cbn [disk_records sm_run fold_left snd].
+      eexists. split; [reflexivity|]. cbn [db_store]. rewrite ES. reflexivity.
+  Qed.
+
+  (** the state a clean history leaves satisfies the invariant again, and its log file is
+      fsynced to its end (close syncs last) *)
   Lemma clean_history_inv cfg ss : forall st log,
-    Inv crc enc dec st log -> pend log = [] ->
+    Inv crc enc dec st log -> pend log = [] -> syn_full (db_w st) ->
     no_crash ss = true -> forallb kclean (hist_flags crc enc dec cfg st ss) = true ->
     Forall ok (hist_logs crc enc dec cfg st ss) ->
-    exists st' log', snd (run_sessions crc enc dec cfg st ss) = ROk st' /\ Inv crc enc dec st' log' /\ pend log' = [].
+    exists st' log', snd (run_sessions crc enc dec cfg st ss) = ROk st' /\ Inv crc enc dec st' log' /\ pend log' = []
+                     /\ syn_full (db_w st').
   Proof.
-    induction ss as [|[os e] r IH]; intros st log I P Hc Hk Hok; [exists st, log; auto|].
+    induction ss as [|[os e] r IH]; intros st log I P SF Hc Hk Hok; [exists st, log; auto|].
     cbn [no_crash forallb snd] in Hc. apply andb_prop in Hc as [He Hc]. destruct e; [|discriminate].
     cbn [Classes.hist_flags run_sessions Classes.hist_logs] in *.
     unfold Classes.sess_flags in Hk.
@@ -215,7 +390,9 @@ Section CrashProofs.
     fold (pend log) in Hk. rewrite P in Hk. cbn [existsb] in Hk.
     pose proof (scan_state crc enc cfg os st false k0) as SS.
     destruct (scan crc enc cfg st false os k0) as [fl st1] eqn:SC. cbn [snd] in SS.
-    destruct (run_ops crc enc cfg st os) as [st1' outs] eqn:RO. cbn [fst] in SS, Hok. subst st1'.
+    pose proof (run_ops_syn cfg os st) as RS1.
+    pose proof (run_ops_seq_mono cfg os st) as MONO.
+    destruct (run_ops crc enc cfg st os) as [st1' outs] eqn:RO. cbn [fst] in SS, Hok, RS1, MONO. subst st1'.
     apply Forall_app in Hok as [Hok1 Hok2]. apply Forall_app in Hok2 as [Hok2 Hok3].
     assert (Kall : kclean fl = true /\ w_seq (db_w (db_close crc enc cfg st1)) = w_seq (db_w st1)).
     { destruct (db_open crc dec (end_disk crc enc cfg st1 EClose)); cbn [forallb] in Hk; apply andb_prop in Hk as [Hk1 _];
@@ -226,27 +403,42 @@ Section CrashProofs.
     destruct (scan_inv crc enc dec cfg os st false k0 log I (fun _ => P)) as [_ (log1 & I1)]; [rewrite SC; exact Kfl|exact Hok1|].
     rewrite SC in I1. cbn [snd] in I1.
     destruct (close_reopen_inv crc enc dec crc_range cfg st1 log1 I1 K5 Hok2) as (st2 & log2 & DO & ST & I2 & P2).
+    assert (SF2 : syn_full (db_w st2)).
+    { pose proof I1 as (S1 & _). pose proof (single_seq crc enc _ _ S1) as Z1.
+      destruct (syn_full_ok _ SF) as (f0 & _ & SO).
+      apply (close_reopen_full cfg st1 _ st2 (RS1 _ SO Z1)); [rewrite K5; exact Z1|exact DO]. }
     rewrite DO in *. cbn [forallb] in Hk. apply andb_prop in Hk as [_ Hk2].
-    destruct (IH st2 log2 I2 P2 Hc Hk2 Hok3) as (st' & log' & R' & I' & P').
+    destruct (IH st2 log2 I2 P2 SF2 Hc Hk2 Hok3) as (st' & log' & R' & I' & P' & SF').
     destruct (run_sessions crc enc dec cfg st2 r) as [obs fin] eqn:RS. cbn [snd] in *.
     exists st', log'. auto.
   Qed.
 
+  Lemma syn_full_fresh : syn_full (db_w db_fresh).
+  Proof. exists empty_file. repeat split. Qed.
+
   (** T crash_recovers_last_close *)
-  Lemma crash_recovers_last_close_l cfg ss st os n f :
+  Lemma crash_recovers_last_close_l cfg ss st os d' :
     no_crash ss = true -> forallb kclean (hist_flags crc enc dec cfg db_fresh ss) = true ->
     snd (run_sessions crc enc dec cfg db_fresh ss) = ROk st ->
     Forall ok (hist_logs crc enc dec cfg db_fresh ss ++ ops_logs crc enc cfg st os) ->
     w_seq (db_w (fst (run_ops crc enc cfg st os))) = w_seq (db_w st) ->
-    d_files (w_disk (db_w st)) = [(0, f)] -> (length (f_bytes f) <= n)%nat ->
-    exists st2, db_open crc dec (cut_disk [(0, Z.of_nat n)] (wdrop (db_w (fst (run_ops crc enc cfg st os))))) = ROk st2
-                /\ db_store st2 = db_store st.
+    crash (wdrop (db_w (fst (run_ops crc enc cfg st os)))) d' ->
+    exists st2, db_open crc dec d' = ROk st2 /\ db_store st2 = db_store st.
   Proof.
-    intros Hc Hk Hr Hok Hseq Hf Hn. apply Forall_app in Hok as [Hok1 Hok2].
+    intros Hc Hk Hr Hok Hseq Hcr. apply Forall_app in Hok as [Hok1 Hok2].
     destruct (inv_fresh crc enc dec) as [I0 P0].
-    destruct (clean_history_inv cfg ss db_fresh [] I0 P0 Hc Hk Hok1) as (st' & log' & R' & I' & P').
+    destruct (clean_history_inv cfg ss db_fresh [] I0 P0 syn_full_fresh Hc Hk Hok1) as (st' & log' & R' & I' & P' & SF').
     rewrite Hr in R'. injection R' as <-.
-    pose proof I' as ((f' & Hf' & Hb' & Hs') & _). rewrite Hf in Hf'. injection Hf' as <-.
-    apply (crash_gen cfg st log' os n I' P'); [rewrite Hseq; exact Hs'|exact Hok2|rewrite <- Hb'; exact Hn].
+    pose proof I' as (S' & _). pose proof (single_seq crc enc _ _ S') as Z'.
+    apply (crash_gen cfg st log' os d' I' P' SF'); [rewrite Hseq; exact Z'|exact Hok2|exact Hcr].
   Qed.
 End CrashProofs.
+
+(** cutting the single log file to a length that keeps its fsynced bytes is a crash image *)
+Lemma crash_cut_single d f n :
+  d_files d = [(0, f)] -> f_synced f <= Z.of_nat n -> crash d (cut_disk [(0, Z.of_nat n)] d).
+Proof.
+  intros Hf Hn. split; [|reflexivity]. unfold cut_disk, set_files. cbn [d_files]. rewrite Hf. cbn. rewrite Nat2Z.id.
+  apply cf_keep; [exists n; split; [exact Hn|reflexivity]|constructor].
+Qed.
+
